@@ -16,8 +16,8 @@ CLAIMED = {
          "given to serde_html_form as it is; the Content-Type gates of JsonBody/UrlEncodedBody accept exactly the documented media types "
          "and otherwise return the documented error variant (uninterpreted mime model); the extract functions themselves are in C14's unit. Everything the "
          "statement says about VALUES (by-name matching, numbers/booleans/strings kept, wrong types rejected) lives in PathDeserializer "
-         "and third-party serde code that no contract reaches: covered by a BOUNDED native stand-in only (20k/200k pseudo-random "
-         "encoded path parameter sets through the real matchit router, 10k/100k query strings + forms + JSON bodies, malformed inputs), "
+         "and third-party serde code that no contract reaches: covered by a BOUNDED native stand-in only (20k/1M pseudo-random "
+         "encoded path parameter sets through the real matchit router, 10k/300k query strings + forms + JSON bodies, malformed inputs), "
          "labelled bounded in the evidence and never counted as proved."),
    note=("NOT decided deductively: PathDeserializer (800-line serde Deserializer generic over every Visitor), percent_encoding, "
          "form_urlencoded, serde_html_form, serde_json. Assumed: decode_utf8 = one application of percent-decoding + UTF-8 validation; "
@@ -84,7 +84,7 @@ CLAIMED = {
          "linearizability. The SQLite store (SQL strings run by an external engine: outside any Rust verifier) is covered by a BOUNDED "
          "stand-in only, labelled as such in the evidence and never counted as proved: pseudo-random histories of 14 operations over "
          "three ids (TTL 0 / 5 s / 1 h, so no waiting) on the real SqliteSessionStore, compared with the map-with-expiry after every "
-         "operation (600 histories quick, 6000 thorough); the same search runs on the in-memory store (6000 / 60000). Two defects of "
+         "operation (600 histories quick, 20000 thorough); the same search runs on the in-memory store (6000 / 300000). Two defects of "
          "the SQLite store found this way were repaired (fix: commits 176a896, ad9ee78); one is recorded as a known finding."),
    note=("Proved for the in-memory store; bounded for SQLite. NOT decided: SQLite under concurrent connections, the Postgres/MySQL stores "
          "(need a server), concurrency beyond the lock-scope argument. Assumed: clock constant within one operation; time arithmetic as integers; vstd's "
